@@ -6,7 +6,7 @@ for cfg in 0 1 2 3 4 5 6; do
 import json
 d=json.load(open('/tmp/sweep-c01-$cfg.json'))
 print('cfg $cfg', d['violation_counts'])
-for v in d['violations'][:2]:
+for v in (d['violations'] or [])[:2]:
     print(v['label'], v.get('tags'), [ (i['name'],i.get('conc') or i.get('val')) for i in v['inputs']])
 "
 done
